@@ -110,16 +110,26 @@ class Stepper:
                 return "raise", (subst(s.exc, env) if s.exc is not None else None)
             elif isinstance(s, (ast.Pass, ast.Assert)):
                 continue
-            elif isinstance(s, ast.Try) and not s.finalbody:
-                # two worlds: the guarded statement raises an exception a handler catches (atom "raises: <stmt>"), or nothing raises
+            elif isinstance(s, ast.Try):
+                # two worlds: the guarded statement raises an exception a handler catches (atom "raises: <stmt>"), or nothing raises;
+                # a finally block runs after either and its own return / break / continue / raise wins
                 first = s.body[0] if s.body else None
                 label = "raises: " + (norm(subst(first, env))[:70] if first is not None else "")
                 if s.handlers and self.atom(label):
                     k, v = self.run(s.handlers[0].body, env)
                 else:
                     k, v = self.run(list(s.body) + list(s.orelse), env)
+                if s.finalbody:
+                    kf, vf = self.run(s.finalbody, env)
+                    if kf != "fall":
+                        return kf, vf
                 if k != "fall":
                     return k, v
+            elif isinstance(s, ast.Delete) and all(isinstance(t, ast.Name) for t in s.targets):
+                for t in s.targets:
+                    if any(isinstance(n, ast.Name) and n.id == t.id for val in env.values() for n in ast.walk(val)):
+                        raise Unsupported(f"del of a name other values still mention at line {s.lineno}")
+                    env.pop(t.id, None)
             elif isinstance(s, (ast.While, ast.For)) and self.on_loop is not None:
                 self.on_loop(s, env)
             else:
